@@ -527,7 +527,7 @@ def run_driver(drv, cases, wd, tag):
     """run the driver on the cases in parallel chunks; returns (stdout, stderr per case id)"""
     nch = min(vlib.NCPU, max(1, len(cases) // 20))
     chunks = [cases[i::nch] for i in range(nch)]
-    env = dict(os.environ, ASAN_OPTIONS="detect_leaks=0:allocator_may_return_null=1", UBSAN_OPTIONS="print_stacktrace=1")
+    env = dict(os.environ, ASAN_OPTIONS="detect_leaks=0:allocator_may_return_null=1:malloc_context_size=0:print_legend=0", UBSAN_OPTIONS="print_stacktrace=1")
 
     def one(ix):
         fn = os.path.join(wd, "%s-%02d.txt" % (tag, ix))
@@ -557,8 +557,8 @@ def run(res, tier, seed, replay_cases=None):
     drv = vlib.build_driver("dreamdrv", "asan")
 
     r = vlib.rng(seed, PID)
-    ncase = {"quick": 10000, "thorough": 60000}[tier]
-    nsplit = {"quick": 2000, "thorough": 12000}[tier]
+    ncase = {"quick": 7000, "thorough": 60000}[tier]
+    nsplit = {"quick": 1500, "thorough": 12000}[tier]
     if proof_broken:
         ncase *= 3
     cases = corpus_cases()
